@@ -15,16 +15,16 @@ delivers can be compared with CallableSchema.CallStep in-process on the same raw
     over ATP must equal the in-process result modulo CBOR normalisation; single-delay exploration with
     fragmentation on; every trace validated by ATPTrace.tla with the C05 invariants in every state.
 """
-import os, json, glob, random
+import os, re, json, glob, random
 from vlib import common
 from props import atp_common as A
 from props import atp_hello as H
 from props import c06 as C6
 
-SPECS = ["ATPMC", "ATPTrace", "ATPHelloMC", "ATPHelloTraceMC"]
+SPECS = ["ATPMC", "ATPTrace", "ATPHelloMC", "ATPHelloTraceMC", "ATPSignalsMC", "ATPSignalsTrace"]
 PKGS = ["./cmd/atp", "./cmd/yieldgen"]
 INVS = ["TypeOK", "Transparent", "NoCrossTalk", "WriterAtomic", "Faithful", "NoStuck"]
-NPAYLOADS = 18
+NPAYLOADS = 21
 
 
 def judge(ctx, sc, rr, what):
@@ -278,6 +278,85 @@ def run(ctx):
                     ctx.violation(dict(kind="lost_or_wrong_result", step="ok", code="foreign", part="duplicate"),
                                   dict(scenario=sc, run=won, results=out["results"]))
     ctx.extra["overlapping_duplicate_sessions"] = len(dup)
+    # signals reach the run they are addressed to: overlapping calls of a step whose output is the token its signal
+    # handler was given, all passing ONE signalsToStep channel; one signal per run, addressed by run ID, sent in every
+    # rotation of the order in which the calls were issued (whichever write loop takes a signal off the shared
+    # channel must forward it under the run ID it carries)
+    shared = []
+    for n in ((2, 3, 5) if not thorough else (2, 3, 4, 5, 8)):
+        for rot in range(n):
+            for cap in (0, 2):
+                shared.append(dict(id="sharedsig/%d/rot%d/cap%d" % (n, rot, cap), mode="sharedsig", cap=cap, seed=rot,
+                                   runs=[dict(id="r%d" % k, beh="ok") for k in range(1, n + 1)]))
+    shared_ok = []
+    for sc, rr in zip(shared, A.run_driver(ctx, shared, label="c05sharedsig")):
+        out = C6.judge_session(ctx, sc, rr, what="shared signal channel")
+        if out is None:
+            continue
+        ctx.count(sc["id"])
+        if out.get("stuck"):
+            continue
+        shared_ok.append((sc, out))
+        bad = {r: e for r, e in out["results"].items() if not (e["st"] == "ok" and e.get("token_ok"))}
+        if bad:
+            r0 = sorted(bad)[0]
+            ctx.violation(dict(kind="signal_reached_another_run" if bad[r0]["st"] == "ok" else "lost_or_wrong_result",
+                               part="shared signal channel", code=bad[r0]["st"]),
+                          dict(scenario=sc, results=out["results"]))
+    ctx.extra["shared_signal_channel_sessions"] = len(shared)
+    # the signal path as a specification of its own (spec/ATPSignals.tla): exhaustive for four runs and every order of
+    # addressing, the named deviation (the write loop stamps its own run ID) must violate Addressed, and every real
+    # session above is validated by ATPSignalsTrace.tla (which loop took which signal is not logged: TLC infers it)
+    def sig_cfg(path, spec, stamp_own, shared_ch=True, trace=False, runs="R4", orders="AllOrders4"):
+        with open(path, "w") as f:
+            f.write("SPECIFICATION %s\nCONSTANTS\n  Runs <- %s\n  Shared = %s\n  StampOwn = %s\n  Orders <- %s\n" % (
+                spec, runs, "TRUE" if shared_ch else "FALSE", "TRUE" if stamp_own else "FALSE", orders))
+            if trace:
+                f.write("CONSTRAINT HighWater\nINVARIANT TraceInv\nPOSTCONDITION Accepted\n")
+            else:
+                f.write("INVARIANTS TypeOK Addressed AtMostOnce\nPROPERTIES AllDelivered\n")
+        return path
+    for nm, own, sh, expect in (("shared", False, True, None), ("own_channels", False, False, None), ("own_channels_stamp_own", True, False, None),
+                                ("shared_stamp_own", True, True, "Addressed")):
+        r = ctx.tlc("ATPSignalsMC", sig_cfg(os.path.join(ctx.tmp, "c05_sig_%s.cfg" % nm), "FairSpec", own, sh), workers=4, timeout=600, allow_violation=True)
+        ctx.log("ATPSignals %s: %r" % (nm, r))
+        if r.violated != expect:
+            raise common.Infra("ATPSignals/%s: expected %s, TLC reports %s" % (nm, expect, r.violated))
+    slines, sowner = [], []
+    for sc, out in shared_ok:
+        slines.append(dict(ev="reset", r="", k=""))
+        sowner.append(sc)
+        for e in out["events"]:
+            ev, kv, role = e["ev"], e.get("kv") or {}, e.get("role", "")
+            if ev == "e.sig":
+                slines.append(dict(ev="e.sig", r=kv.get("run", ""), k=""))
+            elif ev == "c.send" and kv.get("kind") == "sig":
+                slines.append(dict(ev="c.send", r=kv.get("run", ""), k=A.role_run(role) if role.startswith("wloop:") else ""))
+            elif ev == "s.signal":
+                slines.append(dict(ev="s.signal", r=kv.get("run", ""), k=""))
+            else:
+                continue
+            sowner.append(sc)
+        for rid, e in sorted(out["results"].items()):
+            if e["st"] == "ok":
+                slines.append(dict(ev="x.result", r=rid, k=(e.get("got") or "").replace("token for ", "")))
+                sowner.append(sc)
+    if slines:
+        tpath = os.path.join(ctx.tmp, "c05-sigtrace.ndjson")
+        common.write_ndjson(tpath, slines)
+        with open(tpath + ".cfg", "w") as f:
+            f.write("SPECIFICATION TSpec\nCONSTANTS\n  Runs = {%s}\n  Shared = TRUE\n  StampOwn = FALSE\n  Orders = {}\n"
+                    "CONSTRAINT HighWater\nINVARIANT TraceInv\nPOSTCONDITION Accepted\n" % ", ".join('"r%d"' % k for k in range(1, 9)))
+        r = ctx.tlc("ATPSignalsTrace", tpath + ".cfg", workers=1, env={"VERIF_TRACE": tpath}, timeout=600, dfs=True, allow_violation=True, coverage=False)
+        m = re.search(r'<<"HIGHWATER", (\d+), (\d+)>>', r.out)
+        hw = int(m.group(1)) if m else None
+        if r.ok and hw == len(slines) + 1:
+            ctx.traces += len(shared_ok)
+        else:
+            idx = max(1, min(hw or 1, len(slines)))
+            ctx.violation(dict(kind="trace_rejected" if not (r.violated and r.violated != "postcondition") else "trace_invariant",
+                               event=slines[idx - 1]["ev"], violated=str(r.violated), part="shared signal channel"),
+                          dict(scenario=sowner[idx - 1], line=slines[idx - 1], prefix=slines[max(0, idx - 8):idx - 1]))
     # the legacy v1 framing (no run IDs: strictly serial): the real client against a minimal v1 server built around
     # the real CallableSchema; payload fidelity as above; a rejected input ends the stream and must come back as an error
     v1 = []
